@@ -1,6 +1,6 @@
 """Property id -> check function(work, tier, seed, replay) -> exit code."""
-import checks_seq, checks_ops, checks_bastion, checks_feed
+import checks_seq, checks_ops, checks_bastion, checks_feed, checks_omni
 
 CHECKS = {}
-for m in (checks_seq, checks_ops, checks_bastion, checks_feed):
+for m in (checks_seq, checks_ops, checks_bastion, checks_feed, checks_omni):
     CHECKS.update(m.CHECKS)
